@@ -1357,4 +1357,398 @@ Proof. apply EJ_ret. tss. Qed.
 Lemma EJ_write_record_auto op body s : EJ s (write_record_auto o None op body s).
 Proof. unfold write_record_auto. destruct (in_chunk o s); auto using EJ_write_record_dst, EJ_write_record_chunk. Qed.
 
+Ltac efun := eauto using EJ_write_record_dst, EJ_write_record_chunk, EJ_write_record_auto.
+Ltac et :=
+  lazymatch goal with
+  | |- EJ _ (bindw _ _) => apply EJ_bind; [et | intro; et]
+  | |- EJ _ (if ?c then _ else _) => destruct c; et
+  | |- EJ _ (let _ := _ in _) => cbv zeta; et
+  | |- EJ _ (_, Some _) => apply EJ_err
+  | |- EJ _ (_, _) => apply EJ_ret;
+       first [tss | eauto using tsame_refl, tsame_add_schema, tsame_add_channel, tsame_stats_time]
+  | |- _ => first [ solve [efun] | eapply EJ_io_pre; [|solve [efun]]; tss ]
+  end.
+
+Lemma EJ_write_header h s : EJ s (write_header o lib_id None h s).
+Proof. unfold write_header. et. Qed.
+Lemma EJ_write_schema sc s : EJ s (write_schema o None sc s).
+Proof. unfold write_schema. et. Qed.
+Lemma EJ_write_channel c s : EJ s (write_channel o None c s).
+Proof. unfold write_channel. et. Qed.
+Lemma EJ_write_msgindex mi s : EJ s (write_msgindex o None mi s).
+Proof. unfold write_msgindex. et. Qed.
+Lemma EJ_write_metadata m s : EJ s (write_metadata o None m s).
+Proof. unfold write_metadata. et. Qed.
+
+Lemma EJ_write_msgindexes l : forall offs s, EJ s (fst (write_msgindexes o None l offs s)).
+Proof.
+  induction l as [|mi r IH]; intros offs s; cbn [write_msgindexes].
+  - apply EJ_ret, tsame_refl.
+  - destruct (mi_entries mi) as [|e es]; [apply IH|].
+    pose proof (EJ_write_msgindex mi s) as H.
+    destruct (write_msgindex o None mi s) as [s' [e'|]]; cbn [fst].
+    + exact H.
+    + eapply EJ_seq; [exact H| |discriminate]. intros _. apply IH.
+Qed.
+
+Lemma EJ_wcwi_tail k mis cs s : EJ s (wcwi_tail o None k mis cs s).
+Proof.
+  unfold wcwi_tail. apply EJ_seq3e.
+  - destruct (negb (o_skip_mi o)); [apply EJ_write_msgindexes|apply EJ_ret, tsame_refl].
+  - intros. apply EJ_ret. tss.
+Qed.
+
+Definition wcwi_head (k : chunk) (s : wstate) : wres :=
+  let head := frame_head OpChunk (blen (enc_chunk_top k) + blen (k_records k)) ++ enc_chunk_top k in
+  do* s := dst_write o None head s in
+  do* s := dst_write o None (k_records k) s in log (IChunk k) s.
+
+Lemma wcwi_regroup k mis s :
+  write_chunk_with_indexes o None k mis s =
+  if k_usize k =? 0 then (s, None) else bindw (wcwi_head k s) (wcwi_tail o None k mis (w_size s)).
+Proof.
+  rewrite wcwi_unfold. destruct (k_usize k =? 0); [reflexivity|]. unfold wcwi_head. cbv zeta.
+  destruct (dst_write o None _ s) as [s1 [e1|]]; cbn [bindw]; [reflexivity|].
+  destruct (dst_write o None _ s1) as [s2 [e2|]]; cbn [bindw]; reflexivity.
+Qed.
+
+Lemma MJ_wcwi_head k s : MJ s (wcwi_head k s) (render_item (IChunk k)) [IChunk k].
+Proof.
+  unfold wcwi_head. cbv zeta.
+  pose proof (MJ_bind s _ _ _ _ _ _
+    (MJ_dst (frame_head OpChunk (blen (enc_chunk_top k) + blen (k_records k)) ++ enc_chunk_top k) s)
+    (fun s1 => MJ_bind s1 _ _ _ _ _ _ (MJ_dst (k_records k) s1) (fun s2 => MJ_log (IChunk k) s2))) as H.
+  destruct H as [H1 H2]. split; [exact H1|].
+  eapply M_eq; [exact H2| |reflexivity].
+  cbn [render_item]. unfold frame, enc_chunk. rewrite blen_app, app_nil_r, <- !app_assoc. reflexivity.
+Qed.
+
+Lemma EJ_write_chunk_with_indexes k mis s :
+  item_ok (IChunk k) -> EJ s (write_chunk_with_indexes o None k mis s).
+Proof.
+  intro Hk. rewrite wcwi_regroup. destruct (k_usize k =? 0); [apply EJ_ret, tsame_refl|].
+  apply EJ_bind; [|intro; apply EJ_wcwi_tail].
+  intros _. eapply E_of_MJ; [apply MJ_wcwi_head|reflexivity|exact Hk].
+Qed.
+
+Lemma EJ_flush_active_chunk s : EJ s (flush_active_chunk o compress None s).
+Proof.
+  unfold flush_active_chunk. destruct (w_cbuf s) as [|b l] eqn:Eb; [apply EJ_ret, tsame_refl|].
+  destruct (if w_cur_count s =? 0 then _ else _) as [st en].
+  apply EJ_bind; [|intro; apply EJ_ret; tss].
+  eapply EJ_io_pre; [|apply EJ_write_chunk_with_indexes]; [tss|].
+  cbn. exists (w_nchunks s), (b :: l). auto.
+Qed.
+
+Lemma EJ_wm_tail m s : EJ s (wm_tail o compress None m s).
+Proof.
+  unfold wm_tail. cbv zeta. destruct (w_cur_end _ <? m_log m); destruct (m_log m <? w_cur_start _);
+  (apply EJ_bind; [|intro; apply EJ_ret, tsame_stats_time];
+   match goal with |- context [if ?c then flush_active_chunk _ _ _ _ else _] => destruct c end;
+   [eapply EJ_io_pre; [|apply EJ_flush_active_chunk]; tss | apply EJ_ret; tss]).
+Qed.
+
+Lemma EJ_write_message m s : EJ s (write_message o compress None m s).
+Proof.
+  unfold write_message. destruct (assoc_get _ _); [|apply EJ_err].
+  match goal with |- context [in_chunk o ?s'] => destruct (in_chunk o s') end.
+  - eapply EJ_io_pre; [|apply (EJ_bind _ _ (wm_tail o compress None m));
+      [apply EJ_write_record_chunk|intro; apply EJ_wm_tail]]. tss.
+  - eapply EJ_io_pre; [|apply EJ_bind; [apply EJ_write_record_dst|intro; apply EJ_ret, tsame_stats_time]]. tss.
+Qed.
+
+Lemma copy_frags_None fr : forall n s, exists s',
+  copy_frags o None fr n s = (s', None, n + blen (concat fr)) /\ M s s' (concat fr) [].
+Proof.
+  induction fr as [|p r IH]; intros n s; cbn [copy_frags concat].
+  - exists s. split; [f_equal; cbn; lia|apply M_tsame, tsame_refl].
+  - destruct (MJ_dst p s) as [e m]. destruct (dst_write o None p s) as [s1 r1]. cbn [fst snd] in e, m. subst r1.
+    destruct (IH (n + blen p) s1) as (s' & H1 & H2). exists s'. split.
+    + rewrite H1. f_equal. rewrite blen_app. lia.
+    + eapply M_eq; [eapply M_trans; eauto|reflexivity|reflexivity].
+Qed.
+
+Lemma frame_head_mod op n : frame_head op (n mod two64) = frame_head op n.
+Proof. unfold frame_head. rewrite u64_mod. reflexivity. Qed.
+
+Lemma EJ_write_attachment a src s : EJ s (write_attachment o None a src s).
+Proof.
+  rewrite wa_unfold. cbv zeta.
+  set (fields := enc_attachment_fields a).
+  destruct (MJ_dst (frame_head OpAttachment ((blen fields + a_size a + 4) mod two64)) s) as [e1 m1].
+  destruct (dst_write o None _ s) as [s1 r1]. cbn [fst snd] in e1, m1. subst r1. cbn [bindw].
+  destruct (MJ_dst fields s1) as [e2 m2].
+  destruct (dst_write o None fields s1) as [s2 r2]. cbn [fst snd] in e2, m2. subst r2. cbn [bindw].
+  unfold wa_tail. cbv zeta. fold fields.
+  destruct (copy_frags_None (as_frags src) 0 s2) as (s3 & H3 & m3). rewrite H3. cbn [seq3e].
+  destruct (as_fail src); [apply EJ_err|].
+  rewrite N.add_0_l.
+  destruct (N.eqb_spec (blen (concat (as_frags src))) (a_size a)) as [Hn|Hn]; cbn [negb]; [|apply EJ_err].
+  set (data := concat (as_frags src)) in *. set (crc := crc32 (fields ++ data)).
+  destruct (MJ_dst (u32 crc) s3) as [e4 m4].
+  destruct (dst_write o None (u32 crc) s3) as [s4 r4]. cbn [fst snd] in e4, m4. subst r4. cbn [bindw].
+  destruct (MJ_log (IAttach a data crc) s4) as [e5 m5].
+  destruct (log (IAttach a data crc) s4) as [s5 r5]. cbn [fst snd] in e5, m5. subst r5. cbn [bindw].
+  eapply EJ_seq with (s1 := s5) (e1 := None); [|intros _; apply EJ_ret; tss|discriminate].
+  intros _. cbn [fst]. exists [IAttach a data crc]. split; [|constructor; [reflexivity|constructor]].
+  pose proof (M_trans _ _ _ _ _ _ _ m1 (M_trans _ _ _ _ _ _ _ m2 (M_trans _ _ _ _ _ _ _ m3 (M_trans _ _ _ _ _ _ _ m4 m5)))) as H.
+  eapply M_eq; [exact H| |reflexivity].
+  rewrite tr_bytes_one. cbn [render_item]. unfold frame. fold fields.
+  rewrite frame_head_mod, !blen_app, <- Hn, app_nil_r.
+  replace (blen (u32 crc)) with 4 by (unfold blen; rewrite u32_length; reflexivity).
+  rewrite N.add_assoc. reflexivity.
+Qed.
+
+Lemma EJ_write_all {A} (g : A -> wstate -> wres) l :
+  (forall x s, EJ s (g x s)) -> forall s, EJ s (write_all g l s).
+Proof.
+  intro Hg. induction l as [|x r IH]; intro s; cbn [write_all].
+  - apply EJ_ret, tsame_refl.
+  - apply EJ_bind; auto.
+Qed.
+
+Definition EJ3 s (r : wstate * option err * list sumoffset) := EJ s (fst r).
+
+Lemma EJ3_seg cond body op s offs : (forall s, EJ s (body s)) -> EJ3 s (seg cond body op s offs).
+Proof.
+  intro Hb. unfold EJ3, seg. destruct (cond s); [|apply EJ_ret, tsame_refl].
+  specialize (Hb s). destruct (body s) as [s' [e|]]; exact Hb.
+Qed.
+Lemma EJ3_seq3 s x k : EJ3 s x -> (forall s1 offs, EJ3 s1 (k s1 offs)) -> EJ3 s (seq3 x k).
+Proof.
+  unfold EJ3, seq3. destruct x as [[s1 e1] offs]. cbn [fst]. intros H Hk.
+  eapply EJ_seq; [exact H| |]; intros; subst; [apply Hk|reflexivity].
+Qed.
+
+Lemma EJ_write_summary s : EJ s (fst (write_summary o None s)).
+Proof.
+  rewrite write_summary_segs. change (EJ3 s (seq3 (seg_schemas o None s []) (fun s offs =>
+  seq3 (seg_channels o None s offs) (fun s offs =>
+  seq3 (seg_stats o None s offs) (fun s offs =>
+  seq3 (seg_ci o None s offs) (fun s offs =>
+  seq3 (seg_ai o None s offs) (fun s offs => seg_mdi o None s offs))))))).
+  repeat (apply EJ3_seq3; [|intros]);
+  apply EJ3_seg; intro; first [apply EJ_write_all; intros; auto using EJ_write_schema, EJ_write_channel, EJ_write_record_dst
+                              | apply EJ_write_record_dst].
+Qed.
+
+(* ----- footer ----- *)
+Definition footer_head (ss sos : N) : bytes := frame_head OpFooter 20 ++ u64 ss ++ u64 sos.
+
+Lemma render_footer ss sos crc : render_item (IFooter ss sos crc) = footer_head ss sos ++ u32 crc.
+Proof.
+  cbn [render_item]. unfold frame, enc_footer, footer_head. cbn [f_summary_start f_summary_offset_start f_crc].
+  replace (blen (u64 ss ++ u64 sos ++ u32 crc)) with 20.
+  - rewrite <- !app_assoc. reflexivity.
+  - unfold blen. rewrite !app_length, !u64_length, u32_length. reflexivity.
+Qed.
+Lemma footer_head_length ss sos : length (footer_head ss sos) = 25%nat.
+Proof. unfold footer_head, frame_head. cbn [length app]. rewrite !app_length, !u64_length. reflexivity. Qed.
+Lemma footer_head_firstn ss sos crc : firstn 25 (render_item (IFooter ss sos crc)) = footer_head ss sos.
+Proof. rewrite render_footer. apply firstn_app_exact'. symmetry. apply footer_head_length. Qed.
+
+Lemma MJ_write_footer ss sos s :
+  let crc := if o_crc o then crc_final (crc_update (w_crc s) (footer_head ss sos)) else 0 in
+  MJ s (write_footer o None ss sos s) (render_item (IFooter ss sos crc)) [IFooter ss sos crc].
+Proof.
+  intro crc. unfold write_footer. fold (footer_head ss sos).
+  destruct (MJ_dst (footer_head ss sos) s) as [e1 m1].
+  destruct (dst_write o None (footer_head ss sos) s) as [s1 r1]. cbn [fst snd] in e1, m1. subst r1. cbn [bindw].
+  assert (Hc : checksum o s1 = crc).
+  { unfold checksum, crc. destruct m1 as (_ & _ & _ & C). rewrite C. destruct (o_crc o); reflexivity. }
+  rewrite Hc.
+  pose proof (MJ_bind s1 _ _ _ _ _ _ (MJ_dst (u32 crc) s1) (fun s2 => MJ_log (IFooter ss sos crc) s2)) as [H1 H2].
+  split; [exact H1|].
+  eapply M_eq; [eapply M_trans; [exact m1|exact H2]| |reflexivity].
+  rewrite render_footer, app_nil_r. reflexivity.
+Qed.
+
+Lemma bindw_None a k s' : bindw a k = (s', None) -> exists s1, a = (s1, None) /\ k s1 = (s', None).
+Proof. destruct a as [s1 [e|]]; cbn [bindw]; intro H; [discriminate|eauto]. Qed.
+Lemma seq3e_None {T} (x : wstate * option err * T) k s' :
+  seq3e x k = (s', None) -> exists s1 t, x = (s1, None, t) /\ k s1 t = (s', None).
+Proof. destruct x as [[s1 [e|]] t]; cbn [seq3e]; intro H; [discriminate|eauto]. Qed.
+
+(* what a state reached without errors from init_state satisfies *)
+Definition PreC (s : wstate) : Prop :=
+  out_bytes s = tr_bytes (w_trace s) /\
+  w_size s = blen (out_bytes s) /\
+  w_crc s = (if o_crc o then crc_update crc_init (out_bytes s) else crc_init) /\
+  Forall item_ok (w_trace s).
+
+Lemma PreC_of_E s : E init_state s -> PreC s.
+Proof.
+  intros (T & (A & B & C & D) & Fo). cbn in A, B, C, D. rewrite app_nil_r in A. subst T.
+  unfold PreC. rewrite B. repeat split; auto.
+Qed.
+
+Lemma close_spec s s' :
+  PreC s -> close o compress None s = (s', None) ->
+  exists Tpre Tsum ss sos c1 c2,
+    w_trace s' = IMagic :: IFooter ss sos c2 :: Tsum ++ IRec OpDataEnd (enc_dataend {| de_crc := c1 |}) :: Tpre /\
+    out_bytes s' = tr_bytes (w_trace s') /\
+    c1 = (if o_crc o then crc32 (tr_bytes Tpre) else 0) /\
+    c2 = (if o_crc o then crc32 (tr_bytes Tsum ++ footer_head ss sos) else 0) /\
+    Forall item_ok (w_trace s').
+Proof.
+  intros (P1 & P2 & P3 & P4) H. rewrite close_unfold in H.
+  apply bindw_None in H. destruct H as (s1 & Hfl & H). cbv zeta in H.
+  assert (Ea : E s s1).
+  { assert (X : EJ s (if o_chunked o then flush_active_chunk o compress None s else (s, None)))
+      by (destruct (o_chunked o); [apply EJ_flush_active_chunk|apply EJ_ret, tsame_refl]).
+    rewrite Hfl in X. apply X. reflexivity. }
+  destruct Ea as (Ta & (A1 & A2 & A3 & A4) & Fa).
+  apply bindw_None in H. destruct H as (s2 & Hde & H).
+  set (s1' := s1 <| w_closed := true |>) in *.
+  set (c1 := checksum o s1') in *.
+  pose proof (MJ_write_record_dst OpDataEnd (enc_dataend {| de_crc := c1 |}) s1') as [_ (D1 & D2 & D3 & D4)].
+  rewrite Hde in D1, D2, D3, D4. cbn [fst] in D1, D2, D3, D4.
+  unfold close_tail in H. cbv zeta in H.
+  apply seq3e_None in H. destruct H as (s3 & offs & Hsum & H).
+  set (s2' := s2 <| w_crc := crc_init |>) in *.
+  assert (Eb : E s2' s3).
+  { pose proof (EJ_write_summary s2') as X. rewrite Hsum in X. apply X. reflexivity. }
+  destruct Eb as (Tb & (B1 & B2 & B3 & B4) & Fb).
+  unfold close_fin in H. cbv zeta in H.
+  apply bindw_None in H. destruct H as (s4 & Hoff & H).
+  assert (Ec : E s3 s4).
+  { match type of Hoff with ?x = _ => assert (X : EJ s3 x) end.
+    { destruct (negb (o_skip_so o) && _); [|apply EJ_ret, tsame_refl].
+      apply EJ_write_all. intros. apply EJ_write_record_dst. }
+    rewrite Hoff in X. apply X. reflexivity. }
+  destruct Ec as (Tc & (C1 & C2 & C3 & C4) & Fc).
+  apply bindw_None in H. destruct H as (s5 & Hft & H).
+  match type of Hft with write_footer _ _ ?a ?b _ = _ => set (ss := a) in *; set (sos := b) in * end.
+  pose proof (MJ_write_footer ss sos s4) as X. cbv zeta in X.
+  set (c2 := if o_crc o then crc_final (crc_update (w_crc s4) (footer_head ss sos)) else 0) in *.
+  destruct X as [_ (F1 & F2 & F3 & F4)]. rewrite Hft in F1, F2, F3, F4. cbn [fst] in F1, F2, F3, F4.
+  apply bindw_None in H. destruct H as (s6 & Hmg & H).
+  pose proof (MJ_dst magic s5) as [_ (G1 & G2 & G3 & G4)]. rewrite Hmg in G1, G2, G3, G4. cbn [fst] in G1, G2, G3, G4.
+  unfold log in H. inversion H; subst s'. clear H.
+  set (sF := s6 <| w_trace := IMagic :: w_trace s6 |>).
+  assert (HtF : w_trace sF = IMagic :: w_trace s6) by reflexivity.
+  assert (HoF : out_bytes sF = out_bytes s6) by reflexivity.
+  exists (Ta ++ w_trace s), (Tc ++ Tb), ss, sos, c1, c2.
+  assert (Htr : w_trace s6 = IFooter ss sos c2 :: (Tc ++ Tb) ++ IRec OpDataEnd (enc_dataend {| de_crc := c1 |}) :: Ta ++ w_trace s).
+  { rewrite G1, F1, C1, B1. cbn [app]. change (w_trace s2') with (w_trace s2). rewrite D1.
+    change (w_trace s1') with (w_trace s1). rewrite A1, <- !app_assoc. reflexivity. }
+  split; [rewrite HtF, Htr; reflexivity|].
+  split.
+  { rewrite HoF, HtF.
+    change (IMagic :: w_trace s6) with ([IMagic] ++ w_trace s6). rewrite tr_bytes_app, tr_bytes_one.
+    rewrite G2, F2, C2, B2. change (out_bytes s2') with (out_bytes s2). rewrite D2.
+    change (out_bytes s1') with (out_bytes s1). rewrite A2, P1, Htr.
+    change (IFooter ss sos c2 :: (Tc ++ Tb) ++ IRec OpDataEnd (enc_dataend {| de_crc := c1 |}) :: Ta ++ w_trace s)
+      with ([IFooter ss sos c2] ++ (Tc ++ Tb) ++ [IRec OpDataEnd (enc_dataend {| de_crc := c1 |})] ++ Ta ++ w_trace s).
+    rewrite !tr_bytes_app, !tr_bytes_one. cbn [render_item]. rewrite <- !app_assoc. reflexivity. }
+  split.
+  { unfold c1, checksum. change (w_crc s1') with (w_crc s1). rewrite A4, P3.
+    destruct (o_crc o); [|reflexivity]. rewrite <- crc_update_app, P1, tr_bytes_app. reflexivity. }
+  split.
+  { unfold c2. rewrite C4, B4. change (w_crc s2') with crc_init.
+    destruct (o_crc o); [|reflexivity]. rewrite <- !crc_update_app, tr_bytes_app, <- app_assoc. reflexivity. }
+  { rewrite HtF. constructor; [exact I|]. rewrite Htr. constructor; [exact I|].
+    apply Forall_app. split; [apply Forall_app; auto|]. constructor; [exact I|]. apply Forall_app; auto. }
+Qed.
+
+Lemma EJ_new_writer : EJ init_state (new_writer o None).
+Proof.
+  unfold new_writer. apply EJ_bind.
+  - destruct (o_skip_magic o); [apply EJ_ret, tsame_refl|].
+    intros _. eapply E_of_MJ; [apply (MJ_bind _ _ _ _ _ _ _ (MJ_dst magic init_state) (fun s => MJ_log IMagic s))| |exact I].
+    cbn [render_item]. apply app_nil_r.
+  - intro s1. et.
+Qed.
+
+Lemma EJ_step c s : c <> CClose -> EJ s (step o lib_id compress None c s).
+Proof.
+  intro Hc. destruct c; cbn [step]; try congruence;
+  auto using EJ_write_header, EJ_write_schema, EJ_write_channel, EJ_write_message,
+    EJ_write_attachment, EJ_write_metadata.
+Qed.
+
+Lemma E_run cs : forall s,
+  Forall (fun c => c <> CClose) cs ->
+  Forall (fun x : option err * nat => fst x = None) (run_res o lib_id compress None cs s) ->
+  E s (run_st o lib_id compress None cs s).
+Proof.
+  induction cs as [|c r IH]; intros s Hc Hr; cbn [run_st run_res] in *.
+  - apply E_tsame, tsame_refl.
+  - inversion Hc; subst. inversion Hr; subst. cbn [fst] in *.
+    eapply E_trans; [apply (EJ_step c s); assumption|apply IH; assumption].
+Qed.
+
+Lemma run_st_app flt a b s :
+  run_st o lib_id compress flt (a ++ b) s = run_st o lib_id compress flt b (run_st o lib_id compress flt a s).
+Proof. revert s. induction a as [|c r IH]; intro s; cbn [run_st app]; auto. Qed.
+Lemma run_res_app flt a b s :
+  run_res o lib_id compress flt (a ++ b) s =
+  run_res o lib_id compress flt a s ++ run_res o lib_id compress flt b (run_st o lib_id compress flt a s).
+Proof. revert s. induction a as [|c r IH]; intro s; cbn [run_st run_res app]; [reflexivity|]. rewrite IH. reflexivity. Qed.
+
+Lemma C06_core cs' s0 :
+  new_writer o None = (s0, None) ->
+  Forall (fun c => c <> CClose) cs' ->
+  Forall (fun x : option err * nat => fst x = None) (run_res o lib_id compress None (cs' ++ [CClose]) s0) ->
+  let s' := run_st o lib_id compress None (cs' ++ [CClose]) s0 in
+  exists Tpre Tsum ss sos c1 c2,
+    rev (w_trace s') = Tpre ++ IRec OpDataEnd (enc_dataend {| de_crc := c1 |}) :: Tsum ++ [IFooter ss sos c2; IMagic] /\
+    concat (rev (w_out s')) = concat (map render_item (rev (w_trace s'))) /\
+    c1 = (if o_crc o then crc32 (concat (map render_item Tpre)) else 0) /\
+    c2 = (if o_crc o then crc32 (concat (map render_item Tsum) ++ firstn 25 (render_item (IFooter ss sos c2))) else 0) /\
+    Forall item_ok (w_trace s').
+Proof.
+  intros Hnw Hc Hr s'. subst s'. rewrite run_res_app in Hr. rewrite run_st_app.
+  apply Forall_app in Hr. destruct Hr as [Hr1 Hr2].
+  set (s1 := run_st o lib_id compress None cs' s0) in *.
+  assert (E0 : E init_state s0).
+  { pose proof EJ_new_writer as X. rewrite Hnw in X. apply X. reflexivity. }
+  assert (E1 : E init_state s1) by (eapply E_trans; [exact E0|apply E_run; assumption]).
+  apply PreC_of_E in E1.
+  cbn [run_res run_st step] in *. inversion Hr2 as [|x l Hx _]; subst. cbn [fst] in Hx.
+  destruct (close o compress None s1) as [s' e] eqn:Ecl. cbn [fst snd] in *. subst e.
+  destruct (close_spec s1 s' E1 Ecl) as (Tpre & Tsum & ss & sos & c1 & c2 & H1 & H2 & H3 & H4 & H5).
+  exists (rev Tpre), (rev Tsum), ss, sos, c1, c2.
+  split; [|split; [|split; [|split]]].
+  - rewrite H1. cbn [rev]. rewrite rev_app_distr. cbn [rev]. rewrite <- !app_assoc. reflexivity.
+  - exact H2.
+  - exact H3.
+  - rewrite footer_head_firstn. exact H4.
+  - exact H5.
+Qed.
+
 End C06.
+
+Lemma o_crc_eff o : o_crc (effective_opts o) = o_crc o.
+Proof. unfold effective_opts. destruct (_ && _); reflexivity. Qed.
+
+Lemma item_ok_eff o comp it : item_ok (effective_opts o) comp it -> item_ok o comp it.
+Proof. destruct it; cbn; auto. rewrite o_crc_eff. auto. Qed.
+
+Definition C06_hyps (o : wopts) (lib : bytes) (comp : nat -> bytes -> bytes) (cs' : list wcall) : Prop :=
+  let R := W o lib comp None (cs' ++ [CClose]) in
+  r_new R = None /\
+  Forall (fun x : option err * nat => fst x = None) (r_calls R) /\
+  Forall (fun c => c <> CClose) cs'.
+
+Theorem C06_structure_thm : forall o lib comp cs',
+  C06_hyps o lib comp cs' ->
+  let R := W o lib comp None (cs' ++ [CClose]) in
+  exists Tpre Tsum ss sos c1 c2,
+    rev (w_trace (r_final R)) =
+      Tpre ++ IRec OpDataEnd (enc_dataend {| de_crc := c1 |}) :: Tsum ++ [IFooter ss sos c2; IMagic] /\
+    file_of R = concat (map render_item (rev (w_trace (r_final R)))) /\
+    c1 = (if o_crc o then crc32 (concat (map render_item Tpre)) else 0) /\
+    c2 = (if o_crc o then crc32 (concat (map render_item Tsum) ++ firstn 25 (render_item (IFooter ss sos c2))) else 0) /\
+    Forall (item_ok o comp) (w_trace (r_final R)).
+Proof.
+  intros o lib comp cs' (H1 & H2 & H3) R. subst R. unfold file_of. revert H1 H2. rewrite W_unfold.
+  destruct (new_writer (effective_opts o) None) as [s0 [e|]] eqn:Enw; cbn [r_new r_calls r_writes r_final];
+    [discriminate|].
+  intros _ H2.
+  destruct (C06_core (effective_opts o) lib comp cs' s0 Enw H3 H2)
+    as (Tpre & Tsum & ss & sos & c1 & c2 & A & B & C & D & F).
+  rewrite o_crc_eff in C, D.
+  exists Tpre, Tsum, ss, sos, c1, c2. repeat split; auto.
+  eapply Forall_impl; [|exact F]. intro it. apply item_ok_eff.
+Qed.
